@@ -80,3 +80,43 @@ WEXPORT int64_t w_split_args(const uint8_t* in, size_t n, uint8_t* out, size_t m
   }
   W_CATCH_ALL
 }
+
+// ---------------------------------------------------------------- (3) token classification, (4) getters + used flags
+// Tokens arrive as ntok records of TOKW bytes (toks) with lengths lens[].
+#ifndef TOKW
+#define TOKW 4
+#endif
+
+static std::vector<std::string> make_tokens(const uint8_t* toks, const uint64_t* lens, size_t ntok) {
+  std::vector<std::string> v;
+  v.reserve(ntok);
+  for (size_t i = 0; i < ntok; i++) v.emplace_back(reinterpret_cast<const char*>(toks + i * TOKW), lens[i]);
+  return v;
+}
+
+// One stored argument of a parsed Arguments object: kind 1 = positional[idx], kind 2 = named.at(name)[idx].
+// info[0] = positional.size(), info[1] = named.size(), info[2] = named.at(name).size() (kind 2), info[3] = used flag.
+// Returns the text length (text copied to text_out, capacity TOKW) or W_OUT_OF_RANGE when there is no such argument.
+static int64_t query_arg(Arguments& a, uint32_t kind, size_t idx, const uint8_t* name, size_t namelen, uint64_t* info, uint8_t* text_out) {
+  info[0] = a.positional.size();
+  info[1] = a.named.size();
+  const Arguments::ArgText* t;
+  if (kind == 1) {
+    t = &a.positional.at(idx);
+  } else {
+    const auto& vals = a.named.at(std::string(reinterpret_cast<const char*>(name), namelen));
+    info[2] = vals.size();
+    t = &vals.at(idx);
+  }
+  info[3] = t->used;
+  return w_copy_out(t->text, text_out, TOKW);
+}
+
+WEXPORT int64_t w_classify(const uint8_t* toks, const uint64_t* lens, size_t ntok, uint32_t kind, size_t idx, const uint8_t* name,
+    size_t namelen, uint64_t* info, uint8_t* text_out) {
+  try {
+    Arguments a(make_tokens(toks, lens, ntok));
+    return query_arg(a, kind, idx, name, namelen, info, text_out);
+  }
+  W_CATCH_ALL
+}
